@@ -951,14 +951,15 @@ fn record(args: &[String]) -> Value {
 fn solo_corpus(rng: &mut Rng) -> Vec<String> {
     let mut v: Vec<String> = [
         // iterator machinery backed by process-wide lazily initialised helper functions
-        "a := [1, 2, 3, 4, 5, 6]; a @ (x: int) -> int { return x * x }",
-        "a := [1, 2, 3, 4, 5, 6]; a ? (x: int) -> bool { return x % 2 == 0 }",
+        "a := [1, 2, 3, 4, 5, 6]; a~ @ (x: int) -> int { return x * x } $]",
+        "a := [1, 2, 3, 4, 5, 6]; a~ ? (x: int) -> bool { return x % 2 == 0 } $]",
         "a := [1, 2, 3, 4]; (a~ $+, a~ $*)",
         "a := [1, 2, 3, 4]; a~ @ (x: int) -> int { return x + 1 } $]",
-        "a := [3, 1, 2]; a $ 0 (acc: int, x: int) -> int { return acc * 10 + x }",
+        "a := [3, 1, 2]; a~ $ 0 (acc: int, x: int) -> int { return acc * 10 + x }",
         "a := [true, false, true]; (a~ $&&, a~ $||)",
         "a := [6, 3, 5]; (a~ $&, a~ $|)",
-        "a := [1, 2, 3, 4, 5]; a \\ (x: int) -> bool { return x > 2 }",
+        "a := [1, 2, 3, 4, 5]; a~ \\ (x: int) -> bool { return x > 2 }",
+        "it := [1, 2, 3]~; (it(), it(), it(), it())",
         // private cells, loops, closures
         "x := mut int 0; i := mut int 0; while *i < 50 { x += *i; i += 1; }; *x",
         "x := mut int 1; f := () -> int { return x *= 2 }; (f(), f(), f(), *x)",
